@@ -503,6 +503,31 @@ def _band_case(rng, sc, k):
                 x["feature_id"] = "far" + x["feature_id"]
         cspec["genes"] += extra["genes"]
         cspec["fcolls"] += extra["fcolls"]
+    # a member whose children sit in finest bins that are >= 2 bins apart with nothing of it in between (isoforms / features far
+    # apart): its span overlaps ranges that none of its children's bins touch - relaxed membership is decided on the span
+    gap_ranges = []
+    srng = __import__("random").Random(f"C09-split:{rng.random()}")
+    if srng.random() < 0.6:
+        B = 1 << 17
+        left = c - 2 * B + srng.randint(5, B - 400) if c >= 2 * B else srng.randint(5, B // 2)
+        right = c + B + srng.randint(5, B - 400)
+        a = [left, left + srng.randint(20, 300)]
+        b = [right, right + srng.randint(20, 300)]
+        if srng.random() < 0.6:
+            g = GG.rand_gene_spec(srng, a[0], a[1], ntx=2, ident="split", coding=False, max_exons=1, qualifiers=False)
+            g["transcripts"][0]["exons"], g["transcripts"][1]["exons"] = [a], [b]
+            for t in g["transcripts"]:
+                t["cds"], t["frames"] = None, None
+            cspec["genes"].append(g)
+        else:
+            fc = GG.rand_fcoll_spec(srng, a[0], a[1], nfeat=2, ident="split", qualifiers=False)
+            fc["features"][0]["blocks"], fc["features"][1]["blocks"] = [a], [b]
+            cspec["fcolls"].append(fc)
+        for _ in range(3):
+            q0 = srng.randint(a[1] + 1, b[0] - 2)
+            gap_ranges.append([q0, srng.randint(q0 + 1, b[0] - 1)])
+        gap_ranges.append([a[1] - 1, a[1] + 5])
+        gap_ranges.append([b[0] - 5, b[0] + 1])
     members = members_from_spec(cspec)
     pspec = {"mode": "none", "glen": 0, "gseed": 0, "seqname": "chr1", "window": None, "alphabet": "ACGT"}
     r = rng.random()
@@ -517,6 +542,7 @@ def _band_case(rng, sc, k):
     for s, e in [(c - 1, c + 1), (c, c + 1), (c - 1, c), (c - W, c), (c, c + W), (c - W - 1, c + W + 1), (1, c), (1, c + 1)]:
         if b0 <= s < e <= b1 and rng.random() < 0.5:
             ranges.append([s, e])
+    ranges += [r2 for r2 in gap_ranges if b0 <= r2[0] < r2[1] <= b1]
     return {"kind": "band", "k": k, "cspec": cspec, "pspec": pspec, "ranges": ranges, "bad": bad_ranges(rng, bounds),
             "rseed": rng.randrange(1 << 30), "pool": sc["POOL"], "nr2": sc["NR2"], "nsecond": 1}
 
